@@ -43,7 +43,7 @@ CHECKS.update({
             BASE_NOTE + " Host unsigned long is 64 bit; the injected counter is truncated to 32 bit.", "3/C13"),
     "C14": ("exploration",
             "bounded explicit-state exploration of the real class by replay, with online trace-specification monitors and a shadow clock",
-            "Every input sequence to depth 6 (quick) / 8 (thorough) over time advances x reference-clock outcomes is replayed on a "
+            "Every input sequence to depth 6 (quick) / 7 (thorough) over time advances x reference-clock outcomes is replayed on a "
             "fresh SystemClockLoop for 18 configurations, plus seeded 3000-step random walks; monitors check apply-immediately, "
             "backup writes, no change on invalid/timeout, retry lower bound, bounded progress and silence without a reference. "
             "Reported as exploration (no separate model is checked); distinct FSM (state, period) pairs and edges are measured.",
